@@ -36,11 +36,22 @@ def handler : Handler := fun op inp out =>
                   if e then pure (deep, s) else failure) inp with
     | none => bad
     | some (deep, s) =>
-      let m := match withSym s Euc.isEuclideanPrefix with
+      let pre := withSym s Euc.isEuclideanPrefix
+      let m := match pre with
         | .ok (some v, _) => v.render
         | .ok (none, _) => "-"
         | .err => "MODEL-FUEL"
         | .panic => "PANIC"
+      -- the model's prefix found the invariant in the table AND a pseudo-toroidal cover: the verdict
+      -- is decided behind `simplify` (no model), but it can no longer be one of the two `no`s that
+      -- are decided before it — checked here, since the exact payload comparison cannot express it
+      let modelFoundCover := match pre with
+        | .ok (none, some _) => true
+        | _ => false
+      let prefixClause (cls : Cls) (reason : String) : List (String × Bool) :=
+        [("model-found-invariant-and-cover-so-verdict-is-not-decided-before-simplify",
+          !modelFoundCover || !(cls == .no && (reason == Euc.NoReason.invariants.text ||
+            reason == Euc.NoReason.noCover.text)))]
       let corpus := op == "euc_corpus"
       let g := specG s
       if isPanic out then (m, check (verdictClauses g .panic "-" none corpus (deep == 1)))
@@ -66,7 +77,7 @@ def handler : Handler := fun op inp out =>
         | none => (m, fail "no-verdict-returned")
         | some (cls, reason, cov) =>
           -- the model payload covers the verdict tokens only (a `yes` is never predicted)
-          (m, check (verdictClauses g cls reason (cov.map specG) corpus (deep == 1)))
+          (m, check (verdictClauses g cls reason (cov.map specG) corpus (deep == 1) ++ prefixClause cls reason))
   | "eucinv" =>
     match run (do let k ← P.nat; let vs ← P.rep (k + 2) P.rawSym; let e ← P.atEnd; if e then pure vs else failure) inp with
     | none => bad
